@@ -136,6 +136,20 @@ fn ss_udp_case(s: &mut Session, rng: &mut Rng, cipher: &'static str, want_user: 
         // the session survived the refusals
         let r = deliver(s, &wnext);
         expect(s, "reply-after-refusals", r, Some((&anext, &pnext)));
+        // a dropped packet of another session consumed nothing: the own session's packet with the same id is
+        // still fresh, and a far-away foreign id does not move this session's window
+        let (wother2, _, _) = reply(s, rng, cs ^ 0x55, 20010, 3);
+        let r = deliver(s, &wother2);
+        expect(s, "reply-foreign-session-dropped", r, None);
+        let (wown, aown, pown) = reply(s, rng, cs, 20010, 4);
+        let r = deliver(s, &wown);
+        expect(s, "reply-own-id-after-foreign-same-id", r, Some((&aown, &pown)));
+        let (wfarother, _, _) = reply(s, rng, cs ^ 0x55, 1 << 40, 3);
+        let r = deliver(s, &wfarother);
+        expect(s, "reply-foreign-session-dropped", r, None);
+        let (wafter, aafter, pafter) = reply(s, rng, cs, 20011, 5);
+        let r = deliver(s, &wafter);
+        expect(s, "reply-after-far-foreign-id", r, Some((&aafter, &pafter)));
     } else {
         // legacy packets carry no ids: every reply is delivered, also a repeated one
         let r = deliver(s, &wfar);
@@ -228,6 +242,33 @@ fn stream_udp_case(s: &mut Session, rng: &mut Rng, proto: &str, style: u64) {
     s.mark_nontrivial();
 }
 
+/// VMess datagrams around the one-chunk limit: each is refused as a whole or arrives whole — whatever padding is drawn
+fn vmess_limit_case(s: &mut Session, rng: &mut Rng, cipher: &str, thorough: bool) {
+    s.begin_case(&format!("vmess-udp-limit:{}", cipher));
+    let (c, sv) = (s.fresh("c"), s.fresh("s"));
+    let addr = random_addr(rng);
+    let uuid = random_uuid(rng);
+    s.run(&format!("vm.client {} uuid={} cipher={} cmd=udp addr={}", c, uuid, cipher, addr));
+    s.run(&format!("vm.server {} users=a:{}", sv, uuid));
+    let mut sent = 0;
+    for size in (1930..=1990usize).chain([2000, 2013, 2014, 2015, 2030, 2048, 2049]) {
+        for _ in 0..if thorough { 6 } else { 2 } {
+            let payload = rng.bytes(size);
+            let r = timed(s, &format!("st.enc {} {} to={}", c, hex(&payload), addr));
+            let Some(w) = unhex(&r) else { continue };
+            sent += 1;
+            let r = timed(s, &format!("st.feed {} {}", sv, hex(&w)));
+            let got: Vec<Vec<u8>> = r.split(' ').filter_map(|tok| tok.strip_prefix("u:")).map(|rest| unhex(rest.rsplit_once(':').map(|x| x.1).unwrap_or("-")).unwrap_or_default()).collect();
+            if got.len() != 1 || got[0] != payload {
+                s.oracle_fail("vmess-udp:limit", &format!("a datagram of {} bytes was accepted by the sender but arrived as {} datagram(s) of {:?} bytes", size, got.len(), got.iter().map(|g| g.len()).collect::<Vec<_>>()));
+                return;
+            }
+        }
+    }
+    s.count(&format!("limit-sent:{}", sent.min(1)));
+    s.mark_nontrivial();
+}
+
 pub fn generate(s: &mut Session, tier: &str, rng: &mut Rng) {
     let thorough = tier == "thorough";
     for _ in 0..if thorough { 6 } else { 1 } {
@@ -241,6 +282,9 @@ pub fn generate(s: &mut Session, tier: &str, rng: &mut Rng) {
             for style in 0..5 {
                 stream_udp_case(s, rng, proto, style);
             }
+        }
+        for cipher in ["aes-128-gcm", "chacha20-poly1305"] {
+            vmess_limit_case(s, rng, cipher, thorough);
         }
     }
 }
